@@ -1,6 +1,133 @@
-(** C14 — pinned statements. *)
+(** C14 — pinned statements. Nothing but statements, [exact], and assumption audits.
+    [corrupt_cl iw dw t ks] : the clusters whitespace corruption writes for the text
+    [t] (a cluster list) from the draws [ks] (numerators over 2^53), probabilities
+    [iw/2^53], [dw/2^53] clamped to [0,1]. [Clean], [strip], [operations], [repair]
+    are C10's. *)
+From TU Require Import C11_Model C11_Proofs C11_Link.
 From TU Require Import Base C10_Model C10_Proofs C14_Model C14_Proofs.
 
+(** [apply(Part::Input, f)] leaves the target alone *)
 Theorem target_untouched : forall (A : Type) (f : A -> A) item, snd (apply_input f item) = snd item.
 Proof. exact @apply_input_target. Qed.
 Print Assumptions target_untouched.
+
+(** one draw per character is enough: the stream never runs dry *)
+Theorem corrupt_total : forall iw dw t ks,
+  (length t <= length ks)%nat -> exists out, corrupt_cl iw dw t ks = Some out.
+Proof. exact corrupt_total_l. Qed.
+Print Assumptions corrupt_total.
+
+(** only whitespace changes — every text, every stream, both levels *)
+Theorem corrupt_nonws : forall iw dw t ks out,
+  corrupt_cl iw dw t ks = Some out ->
+  strip out = strip t /\ strip_cp (concat out) = strip_cp (concat t).
+Proof. exact corrupt_nonws_l. Qed.
+Print Assumptions corrupt_nonws.
+
+(** a clean text stays clean (cluster level; and at code-point level when no
+    cluster mixes whitespace and non-whitespace) *)
+Theorem corrupt_clean : forall iw dw t ks out,
+  Clean t -> corrupt_cl iw dw t ks = Some out -> Clean out.
+Proof. exact corrupt_Clean. Qed.
+Print Assumptions corrupt_clean.
+
+Theorem corrupt_clean_cp : forall iw dw t ks out,
+  Clean t -> C11_Model.wf_seg t = true -> corrupt_cl iw dw t ks = Some out ->
+  C11_Model.cleansb (concat out) = true.
+Proof. exact corrupt_clean_cp_l. Qed.
+Print Assumptions corrupt_clean_cp.
+
+(** label consistency, through C10's [ops_roundtrip]: the task finds one
+    operation per input character and [repair] gives the text back *)
+Theorem corrupt_labels : forall iw dw t ks out,
+  Clean t -> corrupt_cl iw dw t ks = Some out ->
+  exists ops, operations out t = Some ops /\ length ops = length out
+              /\ repair out ops = Some (concat t).
+Proof. exact corrupt_labels_l. Qed.
+Print Assumptions corrupt_labels.
+
+Theorem labels_shape : forall np ns ops,
+  length (labels np ns ops) = (np + length ops + ns)%nat
+  /\ firstn np (labels np ns ops) = repeat (-1)%Z np
+  /\ firstn (length ops) (skipn np (labels np ns ops)) = map op_code ops
+  /\ skipn (np + length ops) (labels np ns ops) = repeat (-1)%Z ns.
+Proof.
+  exact (fun np ns ops => conj (labels_length np ns ops) (conj (labels_prefix np ns ops)
+         (conj (labels_ops np ns ops _ eq_refl) (labels_suffix np ns ops _ eq_refl)))).
+Qed.
+Print Assumptions labels_shape.
+
+(** delete probability 0 (after clamping): no whitespace disappears — the text is
+    the corrupted input minus U+0020 characters *)
+Theorem corrupt_dw0 : forall iw dw t ks out,
+  clamp dw = 0%Z -> in_range ks -> corrupt_cl iw dw t ks = Some out ->
+  DelR (eq [32%N]) out t /\ DelR (fun x => is32 x = true) (concat out) (concat t).
+Proof. exact corrupt_dw0_l. Qed.
+Print Assumptions corrupt_dw0.
+
+(** insert probability 0: none appears — the corrupted input is the text minus
+    whitespace characters (U+0020 when the text is clean) *)
+Theorem corrupt_iw0 : forall iw dw t ks out,
+  clamp iw = 0%Z -> in_range ks -> corrupt_cl iw dw t ks = Some out ->
+  DelR (fun c => cl_ws c = true) t out /\
+  (Clean t -> DelR (eq [32%N]) t out /\ DelR (fun x => is32 x = true) (concat t) (concat out)).
+Proof. exact corrupt_iw0_l. Qed.
+Print Assumptions corrupt_iw0.
+
+(** probabilities (0, 1): exactly the whitespace goes *)
+Theorem corrupt_extreme : forall t ks out,
+  in_range ks -> corrupt_cl 0 D53 t ks = Some out -> out = strip t.
+Proof. exact corrupt_extreme_l. Qed.
+Print Assumptions corrupt_extreme.
+
+(** code-point mode: SeamStable is a theorem ... *)
+Theorem corrupt_cp_seamstable : forall iw dw s ks out,
+  corrupt_cl iw dw (singletons s) ks = Some out -> singletons (concat out) = out.
+Proof. exact corrupt_cp_stable. Qed.
+Print Assumptions corrupt_cp_seamstable.
+
+(** ... so for every whitespace-clean string (C11's normal form), every
+    probabilities and every stream with one draw per character, at string level:
+    the input has the same non-whitespace characters, is clean again, and
+    operations/repair label it and recover the text *)
+Theorem corrupt_cp : forall iw dw s ks,
+  C11_Model.cleansb s = true -> (length s <= length ks)%nat ->
+  exists c, option_map (@concat N) (corrupt_cl iw dw (singletons s) ks) = Some c
+    /\ strip_cp c = strip_cp s
+    /\ C11_Model.cleansb c = true
+    /\ exists ops, operations (singletons c) (singletons s) = Some ops
+                   /\ length ops = length c
+                   /\ repair (singletons c) ops = Some s.
+Proof. exact corrupt_cp_all. Qed.
+Print Assumptions corrupt_cp.
+
+(** the greedy checker used in the executable statement decides [DelR] *)
+Theorem delb_decides : forall p a b, delb p a b = true <-> DelR (fun x => p x = true) a b.
+Proof. exact delb_iff. Qed.
+Print Assumptions delb_decides.
+
+(** the executable statement holds of the model's own output for every
+    well-formed oracle (enough draws, in range, SeamStable in grapheme mode) *)
+Theorem check_run : forall v, wf_input v -> check_C14 v (run_C14 v) = true.
+Proof. exact check_run_l. Qed.
+Print Assumptions check_run.
+
+(** ** non-vacuity *)
+(** "a b" with draws (0.9, 0.1, 0.1), iw = dw = 1/2: the space is deleted,
+    and a space is inserted before nothing (b follows whitespace) *)
+Example corrupt_example :
+  corrupt_cl 4503599627370496 4503599627370496 [[97];[32];[98]]%N
+             [8106479329266893; 900719925474099; 900719925474099]%Z = Some [[97];[98]]%N.
+Proof. vm_compute. reflexivity. Qed.
+Example clean_witness : Clean [[97];[32];[98];[99]]%N.
+Proof. apply cleanb_spec. vm_compute. reflexivity. Qed.
+Example range_witness : in_range [8106479329266893; 900719925474099; 0]%Z.
+Proof. repeat constructor; vm_compute; congruence. Qed.
+Example wf_input_witness :
+  wf_input (L [I 0; L [L [I 97]; L [I 32]; L [I 98]]; L []; I 0;
+               L [I 8106479329266893; I 900719925474099; I 900719925474099];
+               I 4503599627370496; I 4503599627370496; I 1; I 1])%Z.
+Proof.
+  split; [vm_compute; constructor|]. split; [repeat constructor; vm_compute; congruence|].
+  intros H. vm_compute in H. discriminate.
+Qed.
